@@ -154,7 +154,9 @@ func checkC02(c *Ctx, r *Result, tier string) {
 	n = 0
 	for _, fn := range c.Implementations(procIface, "AddEvent") {
 		key := c.FuncKey(fn)
-		adds := callSites(fn, func(name string, ci ssa.CallInstruction) bool { return strings.HasSuffix(name, "engine/pool.ThreadPool.AddTask") })
+		adds := callSites(fn, func(name string, ci ssa.CallInstruction) bool {
+			return strings.HasSuffix(name, "engine/pool.ThreadPool.AddTask")
+		})
 		acts := callSites(fn, func(name string, ci ssa.CallInstruction) bool {
 			return ci.Common().IsInvoke() && ci.Common().Method.Name() == "Activate" && types.Identical(ci.Common().Value.Type().Underlying(), monIface)
 		})
@@ -247,7 +249,9 @@ func checkC02(c *Ctx, r *Result, tier string) {
 	// ---- R02b finished notification under the zero test ----------------------------------------
 	n = 0
 	for fn := range decr {
-		posts := callSites(fn, func(name string, ci ssa.CallInstruction) bool { return strings.HasSuffix(name, "pubsub.EventPump.PostEvent") })
+		posts := callSites(fn, func(name string, ci ssa.CallInstruction) bool {
+			return strings.HasSuffix(name, "pubsub.EventPump.PostEvent")
+		})
 		key := c.FuncKey(fn)
 		if len(posts) == 0 {
 			r.Report(Finding{Rule: "R02b-post", Site: key + "#post", Pos: c.Pos(fn.Pos()),
@@ -314,7 +318,9 @@ func checkC02(c *Ctx, r *Result, tier string) {
 // c02Wait: observer registered before the event is added; Wait passed whenever a monitor is returned.
 func c02Wait(c *Ctx, r *Result, fn *ssa.Function, procIface *types.Interface) {
 	key := c.FuncKey(fn)
-	obs := callSites(fn, func(name string, _ ssa.CallInstruction) bool { return strings.HasSuffix(name, "pubsub.EventPump.AddObserver") })
+	obs := callSites(fn, func(name string, _ ssa.CallInstruction) bool {
+		return strings.HasSuffix(name, "pubsub.EventPump.AddObserver")
+	})
 	adds := callSites(fn, func(name string, ci ssa.CallInstruction) bool {
 		o := calleeObj(ci.Common())
 		return o != nil && o.Name() == "AddEvent"
